@@ -93,7 +93,7 @@ def build(case, prof, Z):
     imp = s.imp_array(Z, 1e12)
     ef = s.ef_wake(ps, imp, case["buckets"], case["spacing"], case["frev"], case["revpart"], case["Ib"], case["E0"],
                    case["sE"], case["dt"])
-    return s, ps, ef
+    return s, ps, ef, imp
 
 
 def scale_of(case):
@@ -108,13 +108,20 @@ def run_case(case):
     r = gen.rng(case["dseed"])
     Z = make_Z(r, N, case["zkind"])
     prof = make_profiles(r, nb, n, case["pkind"])
-    s, ps, ef = build(case, prof, Z)
+    s, ps, ef, imp = build(case, prof, Z)
     # "for every set of bunch profiles": whatever the field object was asked before must not matter
     for op in case.get("prelude", []):
         other = make_profiles(r, nb, n, "noise")
         for b in range(nb):
             s.ps_set_projection(ps, 0, b, other[b] * np.float32(7.0))
         s.ef_do(ef, op[0], op[1] if len(op) > 1 else 0.0)
+    if case.get("zadd"):
+        # the impedance object the field was built on gets another contribution added in place (Impedance::operator+=, as
+        # the unit test forward_wake does) - after the field has possibly answered requests already.  "Impedance times DFT
+        # of the profiles" means the impedance as it is at the time of the request
+        dZ = make_Z(gen.rng(case["zadd"]), N, "complex")
+        s.imp_add(imp, dZ, 1e12)
+        Z = (Z.astype(np.complex64) + dZ.astype(np.complex64)).astype(np.complex64)
     for b in range(nb):
         s.ps_set_projection(ps, 0, b, prof[b])
     s.ef_do(ef, "wake")
@@ -152,7 +159,7 @@ def run_case(case):
         # samples above N/2 must not matter: bit-identical result
         Z2 = Z.copy()
         Z2[N // 2 + 1:] = (r.standard_normal(N - N // 2 - 1) * 100 + 1j * r.standard_normal(N - N // 2 - 1)).astype(np.complex64)
-        s2, ps2, ef2 = build(case, prof, Z2)
+        s2, ps2, ef2, _ = build(case, prof, Z2)
         s2.ef_do(ef2, "wake")
         W2 = s2.ef_get(ef2, "wake")
         if (gen.bits(W2) != gen.bits(W.astype(np.float32))).any():
@@ -161,12 +168,12 @@ def run_case(case):
     elif var == "linear":
         prof2 = make_profiles(r, nb, n, "noise")
         a, bb = np.float32(r.uniform(-2, 2)), np.float32(r.uniform(-2, 2))
-        s2, _, ef2 = build(case, prof2, Z)
+        s2, _, ef2, _ = build(case, prof2, Z)
         s2.ef_do(ef2, "wake")
         Wb = s2.ef_get(ef2, "wake").astype(np.float64)
         _, _, bound2, _ = reference(prof2, Z, case["buckets"], case["spacing"], N, sc)
         comb = (a * prof + bb * prof2).astype(np.float32)
-        s3, _, ef3 = build(case, comb, Z)
+        s3, _, ef3, _ = build(case, comb, Z)
         s3.ef_do(ef3, "wake")
         Wc = s3.ef_get(ef3, "wake").astype(np.float64)
         e = np.abs(Wc - (float(a) * W + float(bb) * Wb)).max()
@@ -182,10 +189,10 @@ def run_case(case):
         pr[:, 2:n - 2 - m] = prof[:, 2:n - 2 - m]
         pr2 = np.zeros_like(pr)
         pr2[:, m:] = pr[:, :n - m]
-        s2, _, ef2 = build(case, pr, Z)
+        s2, _, ef2, _ = build(case, pr, Z)
         s2.ef_do(ef2, "wake")
         p1 = s2.ef_get(ef2, "padded_wake").astype(np.float64)
-        s3, _, ef3 = build(case, pr2, Z)
+        s3, _, ef3, _ = build(case, pr2, Z)
         s3.ef_do(ef3, "wake")
         p2 = s3.ef_get(ef3, "padded_wake").astype(np.float64)
         _, _, bnd, _ = reference(pr, Z, case["buckets"], case["spacing"], N, 1.0 * N)
@@ -210,6 +217,7 @@ def cases(draw):
                 pkind=draw(st.sampled_from(["smooth", "impulse", "noise"])),
                 variant=draw(st.sampled_from(["none", "none", "neghalf", "linear", "shift"])),
                 prelude=draw(st.lists(st.sampled_from([["csr", 0.0], ["csr", 1e10], ["wake"], ["pad"]]), max_size=3)),
+                zadd=(draw(st.integers(1, 10000)) if draw(st.integers(0, 4)) == 0 else 0),
                 Lq=draw(st.sampled_from([4.0, 6.0])), Lp=draw(st.sampled_from([4.0, 6.0, 9.0])),
                 sigma_z=lg(1e-4, 1e-2), dE=lg(1e5, 1e6), frev=lg(1e5, 1e8), revpart=lg(1e-5, 1e-2),
                 Ib=lg(1e-5, 1e-1), E0=lg(1e8, 1e10), sE=lg(1e-4, 1e-3), dt=lg(1e-12, 1e-9))
